@@ -1,7 +1,7 @@
 """C02 — one note event per tick; lanes are exactly the lanes written."""
 from __future__ import annotations
 
-from .. import gen, impl
+from .. import common, gen, impl
 from .. import framework as fw
 from . import inst_common as ic
 
@@ -69,9 +69,68 @@ def slice(ctx: fw.Ctx) -> fw.Outcome:
            lambda src: any(len(g.lanes) + g.tap + g.forced >= 2 for tr in src.tracks for g in tr.groups))
     ic.stable_under_reads(ctx, out, cases, "note events")
     long_sections(ctx, out)
+    by_path(ctx, out, [R.text for _, R in cases[-40:]])
     from .. import direct as _direct
     _direct.run(ctx, out, 'instrument', ic.prof(flags=0.5, garbage=0.0, exotic_pad=0.25))  # the section's own public parser, given the lines between the braces (padding and all), builds the same track
     return out
+
+
+def by_path(ctx, out, texts):
+    """the file read by path, one lane digit changed in it by a save that keeps the file's size and times, read by path again: the
+    second reading has the lanes the file has now (no line of the file as it stands is dropped in favour of what it said before)"""
+    import os
+    import re
+    import tempfile
+    from pathlib import Path
+
+    from chartparse.chart import Chart
+    done = 0
+    with tempfile.TemporaryDirectory() as td:
+        for k, old in enumerate(texts):
+            m = re.search(r"(?m)^(\s*\d+ = N )([0-4])( \d+\s*)$", old)
+            if not m or done >= ctx.n(3, 30) or impl.run_chart(old).startswith("E "):
+                continue
+            done += 1
+            p = Path(td) / f"c{k}.chart"
+            p.write_bytes(old.encode("utf-8"))
+            try:
+                Chart.from_filepath(p)
+            except Exception:  # noqa: BLE001
+                continue
+            new = old[: m.start(2)] + str((int(m.group(2)) + 1) % 5) + old[m.end(2):]
+            st = os.stat(p)
+            p.write_bytes(new.encode("utf-8"))
+            os.utime(p, ns=(st.st_atime_ns, st.st_mtime_ns))
+            try:
+                x = impl.dump_chart(Chart.from_filepath(p), [])
+            except Exception as e:  # noqa: BLE001
+                x = impl.err_name(e)
+            ref = impl.run_chart(new)
+            lanes = lambda dump: ([(key, [(n["tick"], n["lanes"]) for n in tr.get("notes", [])]) for key, tr in sorted(gen.parse_dump(dump)["tracks"].items())]  # noqa: E731
+                                  if not dump.startswith("E ") else dump)
+            out.case("path" + fw.h(new), True, None, tags=["by-path-resaved"])
+            if lanes(x) != lanes(ref):
+                out.violation("path-" + fw.h(new), "a file whose lane digit was changed in place (same size, same times) and read by path again does not have the lanes it has now",
+                              {"op": "path-resave", "old": old, "new": new}, observed=common.short(str(lanes(x))), promised=common.short(str(lanes(ref))))
+
+
+def _replay_path(data):
+    import os
+    import tempfile
+    from pathlib import Path
+
+    from chartparse.chart import Chart
+    with tempfile.TemporaryDirectory() as td:
+        p = Path(td) / "c.chart"
+        p.write_bytes(data["old"].encode("utf-8"))
+        Chart.from_filepath(p)
+        st = os.stat(p)
+        p.write_bytes(data["new"].encode("utf-8"))
+        os.utime(p, ns=(st.st_atime_ns, st.st_mtime_ns))
+        x = impl.dump_chart(Chart.from_filepath(p), [])
+    ref = impl.run_chart(data["new"])
+    f = lambda dump: [(key, [(n["tick"], n["lanes"]) for n in tr.get("notes", [])]) for key, tr in sorted(gen.parse_dump(dump)["tracks"].items())]  # noqa: E731
+    return f(x) != f(ref), common.short(str(f(x)))
 
 
 def long_text(nticks, lanes, every):
@@ -107,6 +166,8 @@ def replay(ctx, data):
     if data.get("op") == "direct-section":
         from .. import direct as _direct
         return _direct.replay(data)
+    if data.get("op") == "path-resave":
+        return _replay_path(data)
     if data.get("op") == "long":
         o = fw.Outcome("")
         ins, dif = impl.enums()
